@@ -103,7 +103,7 @@ theorem good_qualdecl (q : QualDecl) (hs : SendableQualDecl S q) (hc : cleanQual
   · have : encScope q.scopes = [E "SCOPE" (scopeAttrList q.scopes) []] := by
       simp only [encScope, hemp, Bool.false_eq_true, if_false, scopeAttrList]
     rw [this]
-    exact goodKids_cons (good_scope q.scopes hs.2 hd) goodKids_nil
+    exact goodKids_cons (good_scope q.scopes hs.2.1 hd) goodKids_nil
 
 include hK in
 /-- the four forms of an instance -/
